@@ -1,5 +1,6 @@
-"""C01 - NDEF write then read round-trips (Type 1 and Type 2 Tag part; Type 3/4 and the
-emulated Type 3 Tag are the plug-in part c01_t34).
+"""C01 - NDEF write then read round-trips (Type 1 and Type 2 Tag part; plug-in parts: c01_t34 = Type 3/4 and
+the emulated Type 3 Tag, c01_hist = assignments through one tag object with communication faults in between
+(all tag types, memory reader cache inside the model), c01_vendor = NXP Type 2 product classes).
 
 L1: theorems of NfcVerif.Props.C01 about the executable model NfcVerif.Model.Tlv
     (round trip for every well-formed image and every message up to the capacity,
@@ -19,7 +20,8 @@ from common import Model
 logging.disable(logging.CRITICAL)
 
 LEAN_TARGETS = ["NfcVerif.Props.C01", "drv_t12"]
-PARTS = ["t34"] if os.path.exists(os.path.join(os.path.dirname(os.path.abspath(__file__)), "c01_t34.py")) else []
+PARTS = [p for p in ("t34", "hist", "vendor")
+         if os.path.exists(os.path.join(os.path.dirname(os.path.abspath(__file__)), "c01_%s.py" % p))]
 
 THEOREMS = [
     "NfcVerif.C01.t2_roundtrip",
@@ -86,8 +88,17 @@ def run(ck):
         # capacity of this layout as reported by the real code (needed to pick the boundary lengths)
         from sims.t12_run import read_line
         from sims.t12_tags import make_sim
-        line, _, nd = read_line(kind, make_sim(lay))
-        cap = nd.capacity if nd is not None else 0
+        try:
+            line, _, nd = read_line(kind, make_sim(lay))
+            cap = nd.capacity if nd is not None else 0
+        except Exception as e:  # noqa  (activation itself raised: a failing input, not a harness crash)
+            from common import exc_name
+            ck.fail("t12-activation-raises", "%s: nfc.tag.activate / tag.ndef raised %s" % (kind, exc_name(e)),
+                    {"kind": kind, "memory": bytes(lay["mem"]).hex()})
+            continue
+        if not isinstance(cap, int):
+            ck.fail("t12-capacity-not-a-number", "%s: capacity is %r" % (kind, cap), {"kind": kind, "memory": bytes(lay["mem"]).hex()})
+            continue
         sweep = ck.thorough and i % 25 == 0 and cap <= 300
         if sweep:
             ck.count("layouts with every length 0..capacity+1")
@@ -99,7 +110,13 @@ def run(ck):
             data = bytes(rng.randrange(256) for _ in range(n))
             if rng.random() < 0.1:
                 data = bytes([rng.choice([0, 0xFF, 0xFE, 0x03])]) * n
-            r = Run(lay, data)
+            try:
+                r = Run(lay, data)
+            except Exception as e:  # noqa
+                from common import exc_name
+                ck.fail("t12-activation-raises", "%s: activation / fresh read raised %s" % (kind, exc_name(e)),
+                        {"kind": kind, "memory": bytes(lay["mem"]).hex(), "data": data.hex()})
+                continue
             runs.append(r)
             free = lay["free"]
             bucket = "%s:%s" % (kind, "none" if r.nd is None else
